@@ -5,9 +5,10 @@
      msg  := Q(<req>) | R(<res>;<req>)
      req  := K:from>to:t<term>:li.lt.lc:[i.t.d,...]                   K := A | H | P | V
      res  := ok | lm<l> | tm<l>.<r> | gm<il>.<ir>.<tl>.<tr>.<cl>.<cr> | av<l>.<r>
-   commands:
-     run  <n> <ev>...   -> the state line after every event, joined by " ;; "
-     flags <n> <ev>...  -> es=<0|1> agree=<0|1> lc=<0|1> dv=.. sv=.. ad=.. ot=.. av=..   (oracles / KnownClass on the model's run)
+   commands (r<ab> = revision of the election code, Raft.raftrev: a = fix_vote_term, b = fix_vote_match;
+   optional, default r00 = rr_pinned):
+     run  [r<ab>] <n> <ev>...   -> the state line after every event, joined by " ;; "
+     flags [r<ab>] <n> <ev>...  -> es=<0|1> agree=<0|1> lc=<0|1> dv=.. sv=.. ad=.. ot=.. av=..   (oracles / KnownClass on the model's run)
    events: (T i elapsed (j ...)) (D k elapsed) (X k) (U k) (A i d); numbers decimal *)
 open Model
 open Util
@@ -56,14 +57,22 @@ let ev_of_sexp = function
 
 let b x = if x then "1" else "0"
 
+(* optional leading revision token r<ab> *)
+let split_rev (args : sexp list) : raftrev * sexp list =
+  match args with
+  | A s :: rest when String.length s = 3 && s.[0] = 'r' && (s.[1] = '0' || s.[1] = '1') && (s.[2] = '0' || s.[2] = '1') ->
+    ({ fix_vote_term = (s.[1] = '1'); fix_vote_match = (s.[2] = '1') }, rest)
+  | _ -> ({ fix_vote_term = false; fix_vote_match = false }, args)
+
 let handle (cmd : string) (args : sexp list) : string =
+  let rv, args = split_rev args in
   match cmd, args with
   | "run", A n :: evs ->
     let c = ref (init_default (n_of_s n)) in
-    let out = List.map (fun e -> c := step0 !c (ev_of_sexp e); str_cluster !c) evs in
+    let out = List.map (fun e -> c := step0 rv !c (ev_of_sexp e); str_cluster !c) evs in
     String.concat " ;; " out
   | "flags", A n :: evs ->
-    let c = run (n_of_s n) (List.map ev_of_sexp evs) in
+    let c = run rv (n_of_s n) (List.map ev_of_sexp evs) in
     let h = c.c_hist in
     Printf.sprintf "es=%s agree=%s lc=%s dv=%s sv=%s ad=%s ot=%s av=%s"
       (b (election_safety_b h)) (b (committed_agree_b c)) (b (leader_completeness_b h))
